@@ -26,4 +26,9 @@ TEXT = {
   "note": "Trusts the reference evaluator (harness/src/g1.rs). Program size <= 200 nodes, nesting <= 8, 30000 reference steps.",
   "technique": "differential monitor: real bytecode VM vs. direct structural (AST) evaluator over generated programs, with delta-debugging of witnesses",
  },
+ "C15": {
+  "level": "Exploration: generated programs (control-flow grammar and typed word soup over the whole dictionary, failing programs included) are driven six ways - eval, compile+run, compile+single-step, each with reverse recording off and on - from identical interpreters and every observation the statement lists (result/error, stack, variables, output) must agree.",
+  "note": "Self-consistency oracle (no reference semantics needed). Programs that exhaust the 40000-instruction budget are skipped and counted.",
+  "technique": "six-way twin-execution monitor (drive mode x recording) over generated programs",
+ },
 }
